@@ -188,6 +188,49 @@ def parseParams : Nat → List DTok → Option (List (String × Bool × Ty) × L
       | _ => none
     | _ => none
 
+/-! ## LOCAL block (`SCOPElocals_out`) -/
+
+structure Local where
+  name : String
+  ty : Ty
+  init : Option Expr
+  deriving Repr, DecidableEq
+
+/-- `max_indent` of `SCOPElocals_out`: the width of the name column.  The block is printed only when it is not 0. -/
+def localsWidth (ls : List Local) : Nat :=
+  if ExpPrec.localsWidthIsNameLength then ls.foldl (fun m l => max m l.name.length) 0 else 0
+
+def localToks (l : Local) : List DTok :=
+  [.id l.name, .sym ":"] ++ tyToks l.ty ++ (match l.init with | some e => [.sym ":=", .ex e] | none => []) ++ [.sym ";"]
+
+/-- `SCOPElocals_out` as tokens: nothing when `max_indent` is 0, else LOCAL, one declaration per variable, END_LOCAL; -/
+def localsToks (ls : List Local) : List DTok :=
+  if localsWidth ls = 0 then [] else [.kw "LOCAL"] ++ ls.flatMap localToks ++ [.kw "END_LOCAL", .sym ";"]
+
+/-- the declarations between LOCAL and END_LOCAL (`local_variable` with a one-element id list) -/
+def parseLocalList : Nat → List DTok → Option (List Local × List DTok)
+  | 0, _ => none
+  | n + 1, ts =>
+    match ts with
+    | .kw "END_LOCAL" :: .sym ";" :: r => some ([], r)
+    | .id s :: .sym ":" :: r =>
+      match parseTy n r with
+      | some (t, .sym ":=" :: .ex e :: .sym ";" :: r') =>
+        match parseLocalList n r' with
+        | some (ls, r'') => some (⟨s, t, some e⟩ :: ls, r'')
+        | none => none
+      | some (t, .sym ";" :: r') =>
+        match parseLocalList n r' with
+        | some (ls, r'') => some (⟨s, t, none⟩ :: ls, r'')
+        | none => none
+      | _ => none
+    | _ => none
+
+/-- `local_decl` or nothing -/
+def parseLocals (n : Nat) : List DTok → Option (List Local × List DTok)
+  | .kw "LOCAL" :: r => parseLocalList n r
+  | r => some ([], r)
+
 def Param.triple (p : Param) : String × Bool × Ty := (p.name, p.var, p.ty)
 
 end StepModel.Express
